@@ -961,6 +961,17 @@ static int do_replay(const std::string &path, bool verbose)
     Json line = exec_plan(x, rep["plan"]);
     Violation want = viol_from(rep["expect"]["class"]), got;
     bool same = has_core(line, core_of(want), &got);
+    if (!same && want.kind.compare(0, 11, "crash:asan:") == 0) {
+        // a wild access is reported by the sanitizer according to what the address happens to hit in this process
+        // (freed block, foreign block, unmapped page): the same invariant dying at the same site under the sanitizer
+        // is the same violation, whatever the report's first word
+        for (auto &v : viols_of(line))
+            if (v.invariant == want.invariant && v.site == want.site && v.kind.compare(0, 11, "crash:asan:") == 0) {
+                got = v;
+                same = true;
+                break;
+            }
+    }
     if (verbose) {
         printf("replay %s: property=%s world=%s digest=%s expected=%s\n", path.c_str(), prop.c_str(), w->name(), line.gets("ed").c_str(),
                rep["expect"].gets("digest").c_str());
